@@ -107,7 +107,7 @@ def run_unit(u):
     def bump(k, n=1):
         cn[k] = cn.get(k, 0) + n
 
-    pcs = ['checked', 'disabled', 'link', 'default', 'required', 'enabled', 'read-write', 'indeterminate']
+    pcs = ['checked', 'disabled', 'link', 'default', 'required', 'enabled', 'read-write', 'indeterminate', 'lang(fr)', 'lang(fr)', 'dir(ltr)']
 
     def pc(r, d):
         return ('pc', r.choice(pcs))
@@ -128,6 +128,7 @@ def run_unit(u):
             res['viol'].append(case.witness(ast, text, what, **kw))
 
     for _ in range(u['n']):
+        pragma = False
         how = rng.choice(['api', 'html.parser', 'lxml', 'html5lib', 'xml', 'api-xml', 'xml', 'api-xml'])
         root, ws = trees.gen_tree(rng, max_nodes=rng.choice([5, 12, 25]),
                                   names=trees.NAMES + (['iframe', 'iframe'] if how in ('api', 'html.parser') and rng.random() < .5 else []))
@@ -141,6 +142,12 @@ def run_unit(u):
             use_custom = True
         else:
             tops, _m = trees.wrap(rng, root)
+            for t_ in tops:
+                # a language pragma in the outer document (what an embedded document inherits from it is for the entry points to agree on)
+                if isinstance(t_, E) and t_.name == 'html' and t_.kids and isinstance(t_.kids[0], E) and t_.kids[0].name == 'head' and rng.random() < .5:
+                    t_.kids[0].kids.append(E('meta', {'http-equiv': 'content-language', 'content': 'fr'}))
+                    bump('documents_with_pragma')
+                    pragma = True
             nsmap = rng.choice([None, None, {}])
             use_custom = rng.random() < .5
             cfg = cfg_custom if use_custom else cfg_plain
@@ -162,6 +169,11 @@ def run_unit(u):
         other = trees.build_api([E('div', {'class': ['x']}, [E('a', {'id': 'x'}), T('text', 'q'), E('b')])])
         for _s in range(2):
             ast = sels.gen_list(rng, rng.choice([1, 2, 2]), cfg)
+            if pragma and rng.random() < .6:
+                last_ = [c for c in ast[-1] if isinstance(c, dict)][-1]
+                last_['pseudos'] = [p for p in last_['pseudos'] if p[0] not in ('scope', 'amp')] + [('pc', 'lang(fr)')]
+                if rng.random() < .5:
+                    last_['tag'], last_['ids'], last_['classes'], last_['attrs'] = None, [], [], []
             if rng.random() < .08:
                 # the scope marker written *before* another flag-like pseudo-class of the same compound (and after one)
                 cx = rng.choice(ast)
